@@ -308,3 +308,50 @@ Proof.
     cbn [time_value].
     destruct (Qle_bool fr (inject_Z (nat_of ff))); cbn [tres_equiv]; [exact I|reflexivity].
 Qed.
+
+(* ---- strings outside the grammar: the recorded finding lax-value-syntax ------------------------ *)
+Definition in_grammar (s : text) : Prop := exists e, wf_texpr e = true /\ print_time e = s.
+
+Lemma chrs_last_digit ds d : all_dec (ds ++ [d]) = true -> is_digit (chr d) = true.
+Proof.
+  unfold all_dec. rewrite forallb_app. intro H. apply andb_true_iff in H as [_ H]. simpl in H.
+  rewrite andb_true_r in H. apply is_dec_digit. exact H.
+Qed.
+
+Lemma nonempty_snoc {A} (l : list A) : l <> [] -> exists l' a, l = l' ++ [a].
+Proof. intro H. destruct (exists_last H) as [l' [a E]]. exists l', a. exact E. Qed.
+
+(* the last character of a printed time expression is a digit or a metric letter *)
+Lemma print_last e : wf_texpr e = true ->
+  exists l c, print_time e = l ++ [c] /\ (is_digit c = true \/ In c [104; 109; 115; 102; 116]).
+Proof.
+  intro Hwf. destruct e as [ip fp m | hh m1 m2 s1 s2 fp | hh m1 m2 s1 s2 ff]; simpl in Hwf; unfold print_time.
+  - destruct m; cbn [metric_text].
+    + exists (chrs ip ++ frac_text fp), 104. rewrite app_assoc. split; [reflexivity|]. right. simpl. tauto.
+    + exists (chrs ip ++ frac_text fp), 109. rewrite app_assoc. split; [reflexivity|]. right. simpl. tauto.
+    + exists (chrs ip ++ frac_text fp), 115. rewrite app_assoc. split; [reflexivity|]. right. simpl. tauto.
+    + exists (chrs ip ++ frac_text fp ++ [109]), 115. rewrite <- !app_assoc. split; [reflexivity|]. right. simpl. tauto.
+    + exists (chrs ip ++ frac_text fp), 102. rewrite app_assoc. split; [reflexivity|]. right. simpl. tauto.
+    + exists (chrs ip ++ frac_text fp), 116. rewrite app_assoc. split; [reflexivity|]. right. simpl. tauto.
+  - repeat (apply andb_true_iff in Hwf as [Hwf ?]).
+    destruct fp as [|f fp].
+    + exists (chrs hh ++ [58; chr m1; chr m2; 58; chr s1]), (chr s2). cbn [frac_text]. rewrite app_nil_r, <- app_assoc.
+      split; [reflexivity|]. left. apply is_dec_digit. assumption.
+    + destruct (nonempty_snoc (f :: fp)) as [l' [a E]]; [discriminate|]. rewrite E in *.
+      exists (chrs hh ++ [58; chr m1; chr m2; 58; chr s1; chr s2] ++ 46 :: chrs l'), (chr a).
+      split.
+      * assert (Hf : frac_text (l' ++ [a]) = 46 :: chrs l' ++ [chr a]).
+        { unfold frac_text. destruct (l' ++ [a]) eqn:E2; [destruct l'; discriminate|]. rewrite <- E2, chrs_app. reflexivity. }
+        rewrite Hf. rewrite <- !app_assoc. reflexivity.
+      * left. eapply chrs_last_digit. eassumption.
+  - repeat (apply andb_true_iff in Hwf as [Hwf ?]).
+    destruct (nonempty_snoc ff) as [l' [a E]]; [destruct ff; [discriminate|discriminate]|]. subst ff.
+    exists (chrs hh ++ [58; chr m1; chr m2; 58; chr s1; chr s2; 58] ++ chrs l'), (chr a).
+    rewrite chrs_app. rewrite <- !app_assoc. split; [reflexivity|]. left. eapply chrs_last_digit. eassumption.
+Qed.
+
+Lemma not_in_grammar_last l c : is_digit c = false -> ~ In c [104; 109; 115; 102; 116] -> ~ in_grammar (l ++ [c]).
+Proof.
+  intros Hd Hm [e [Hwf Hp]]. destruct (print_last e Hwf) as [l' [c' [E Hc]]].
+  rewrite Hp in E. apply app_inj_tail in E as [_ E]. subst c'. destruct Hc as [Hc|Hc]; [congruence|contradiction].
+Qed.
